@@ -680,6 +680,21 @@ struct ZoneEngine : Engine {
 		q.engine = p.engine;
 		q.variant = p.variant;
 		q.files = p.files;
+		/* the same image under a longer path: zone handles are cached under the name they were asked for */
+		std::string zpath = "/sim/zi/Z";
+		{
+			static const size_t lens[] = {0, 0, 0, 30, 47, 48, 49, 56, 64, 100, 128, 250, 300, 1000};
+			size_t extra = lens[(p.hash() >> 7) % (sizeof(lens) / sizeof(*lens))];
+			if (extra) {
+				zpath = "/sim/zi/";
+				while (zpath.size() < 8 + extra)
+					zpath += zpath.size() % 17 == 16 ? '/' : (char)('a' + zpath.size() % 23);
+				zpath += "/Z";
+				for (auto &f : q.files)
+					if (f.path == "/sim/zi/Z")
+						f.path = zpath;
+			}
+		}
 		std::string expect;
 		auto zstr = [](int32_t off) {
 			char b[16];
@@ -785,6 +800,18 @@ struct ZoneEngine : Engine {
 				if (e.t < -11644000000LL || e.t > 60000000000LL)
 					return v;
 		}
+		if (zpath != "/sim/zi/Z") {
+			for (auto &a : q.argv)
+				if (a == "/sim/zi/Z")
+					a = zpath;
+			size_t at = 0;
+			while ((at = expect.find("\t/sim/zi/Z\n", at)) != std::string::npos) {
+				expect.replace(at + 1, 9, zpath);
+				at += zpath.size();
+			}
+			if (collect && zpath.size() > 64)
+				st.named["tool_long_zone_path"]++;
+		}
 		RunResult r = run_plan(q);
 		st.add_probes(r);
 		if (collect)
@@ -799,14 +826,29 @@ struct ZoneEngine : Engine {
 			v.detail = cmd + ": " + r.status_str() + " " + asan_summary(r.err);
 			return v;
 		}
-		bool same = r.out == expect;
+		/* with a long path only the transition column is compared: what dzone makes of a name that does not fit
+		 * its line buffer is not this property's business */
+		std::string got = r.out;
+		if (mode == 3 && zpath.size() > 40) {
+			auto cut = [](const std::string &o) {
+				std::string res;
+				for (auto &l : split_lines_keep(o)) {
+					size_t t = l.find('\t');
+					res += t == std::string::npos ? l : l.substr(0, t) + "\n";
+				}
+				return res;
+			};
+			got = cut(got);
+			expect = cut(expect);
+		}
+		bool same = got == expect;
 		size_t wild = expect.find('\x01');
 		if (!same && wild != std::string::npos) {
 			/* "<anything> <- <first entry>": compare what is in front of and behind the placeholder */
 			std::string head = expect.substr(0, wild), tail = expect.substr(wild + 1);
-			same = r.out.size() >= head.size() + tail.size() && r.out.compare(0, head.size(), head) == 0 &&
-			       r.out.compare(r.out.size() - tail.size(), tail.size(), tail) == 0 &&
-			       r.out.substr(head.size(), r.out.size() - head.size() - tail.size()).find('\n') == std::string::npos;
+			same = got.size() >= head.size() + tail.size() && got.compare(0, head.size(), head) == 0 &&
+			       got.compare(got.size() - tail.size(), tail.size(), tail) == 0 &&
+			       got.substr(head.size(), got.size() - head.size() - tail.size()).find('\n') == std::string::npos;
 			if (collect && same)
 				st.named["tool_dzone_prev_in_first_range"]++;
 		}
